@@ -1,7 +1,7 @@
 #!/venv/bin/python
 """Source translator (fail-closed) for pyrtcm's two stream classes: the CURRENT text of
      socketwrapper.SocketWrapper.{__init__, _recv, read, readline, dechunk}
-     rtcmreader.RTCMReader.{read, _parse_ubx, _parse_nmea, _parse_rtcm3, _read_bytes, _read_line, _do_error, parse}
+     rtcmreader.RTCMReader.{__init__, __next__, read, _parse_ubx, _parse_nmea, _parse_rtcm3, _read_bytes, _read_line, _do_error, parse}
 -> PyO abstract syntax (coq/Src/PyO.v).
 
 usage: gen_src2.py OUT.v           (reads $VERIF_REPO/src/pyrtcm/*.py; default /repo)
@@ -39,7 +39,7 @@ UNOPS = {ast.Not: "UNot", ast.Invert: "UInv", ast.USub: "UNeg"}
 BUILTIN_EXC = ["EOFError", "OSError", "TimeoutError", "ValueError", "IndexError", "KeyError", "TypeError", "AttributeError",
                "OverflowError", "StopIteration", "Exception"]
 LIB_EXC = ["RTCMMessageError", "RTCMParseError", "RTCMStreamError", "RTCMTypeError"]
-BUILTINS = ["len", "bytes", "bytearray", "int", "min", "staticmethod", "property"]
+BUILTINS = ["len", "bytes", "bytearray", "int", "min", "isinstance", "staticmethod", "property"]
 CONST_MODULE = "pyrtcm.rtcmtypes_core"
 
 SPEC = {
@@ -54,9 +54,10 @@ SPEC = {
     },
     "reader": {
         "file": "rtcmreader.py", "cls": "RTCMReader",
-        "methods": ["read", "_parse_ubx", "_parse_nmea", "_parse_rtcm3", "_read_bytes", "_read_line", "_do_error", "parse"],
+        "methods": ["__init__", "__next__", "read", "_parse_ubx", "_parse_nmea", "_parse_rtcm3", "_read_bytes", "_read_line", "_do_error", "parse"],
         "static": ["parse"],
-        "ext": {"calc_crc24q": ("pyrtcm.rtcmhelpers", "calc_crc24q"), "RTCMMessage": ("pyrtcm.rtcmmessage", "RTCMMessage")},
+        "ext": {"calc_crc24q": ("pyrtcm.rtcmhelpers", "calc_crc24q"), "RTCMMessage": ("pyrtcm.rtcmmessage", "RTCMMessage"),
+                "getLogger": ("logging", "getLogger"), "socket": ("socket", "socket"), "SocketWrapper": ("pyrtcm.socketwrapper", "SocketWrapper")},
         "exc_alias": {},
         "zconsts": {},
     },
@@ -347,6 +348,10 @@ class Meth:
             if (f.id == "int" and "int" in self.ctx.builtins and len(e.args) == 2 and not kws
                     and isinstance(e.args[1], ast.Constant) and e.args[1].value == 16 and not isinstance(e.args[1].value, bool)):
                 return "(ECallB BInt16 [%s])" % self.expr(e.args[0])
+            if (f.id == "isinstance" and "isinstance" in self.ctx.builtins and len(e.args) == 2 and not kws and isinstance(e.args[1], ast.Name)
+                    and e.args[1].id in self.ctx.ext and not self.is_local(e.args[1].id)):
+                # a question to the environment: isinstance(x, <imported class>)
+                return "(ECallX {| c_name := \"isinstance\"; c_kw := [%s] |} [%s])" % (cstr(self.ctx.ext[e.args[1].id]), self.expr(e.args[0]))
             if f.id == "min" and "min" in self.ctx.builtins and len(e.args) == 2 and not kws:
                 return "(ECallB BMin [%s; %s])" % (self.expr(e.args[0]), self.expr(e.args[1]))
             if f.id == "BytesIO" and f.id in self.ctx.ext and len(e.args) == 1 and not kws:
